@@ -29,12 +29,10 @@ def Window.indices (w : Window) : List Nat := List.range' w.off w.len
 model) or entirely inside the allocation. -/
 def Window.safe (w : Window) (total : Nat) : Prop := w.len = 0 ∨ w.valid total
 
-/-- `Orderer::SizeInBytes()`; `NullByteOrderer` answers `Ok() ? 1 : 0` (and `Ok()` only tests the
-pointer), the others answer the buffer's size. -/
-def ordererSize (bo : ByteOrder) (w : Window) : Nat :=
-  match bo with
-  | .null => 1
-  | _ => w.len
+/-- `Orderer::SizeInBytes()`: every orderer (little-endian, big-endian and, since the repair of
+`NullByteOrderer::SizeInBytes()` — it used to answer `Ok() ? 1 : 0` — also the null orderer of
+one-byte fields) answers the size of the buffer it wraps. -/
+def ordererSize (_bo : ByteOrder) (w : Window) : Nat := w.len
 
 /-- indices `BitBlock<…, 8·k>::ReadUInt()` touches once `BitBlock::Ok()`
 (`buffer_.Ok() && buffer_.SizeInBytes() * 8 == kBufferSizeInBits`) holds: `k` bytes from `bytes_`. -/
@@ -44,5 +42,14 @@ def bitBlockReads (bo : ByteOrder) (k : Nat) (w : Window) : List Nat :=
 /-- `SumOperation::Do<int32_t>`: `none` = signed overflow (undefined behaviour). -/
 def addI32 (a b : Int) : Option Int :=
   if -2147483648 ≤ a + b ∧ a + b ≤ 2147483647 then some (a + b) else none
+
+/-- Outcome of the generated `CouldWriteValue(v)` of a virtual field `let f = x + c` … as far as
+arithmetic is concerned: `none` = signed overflow (UB) while computing the inverse transform
+`v - c` (rendered as `Sum<int32_t,…>(v, k)` with `k = -c`), `some false` = rejected before any
+arithmetic, `some true` = transform computed.  `lo`/`hi` = the inferred range of the virtual
+field that the generated code compares the argument with *first*
+(`if (v < lo || v > hi) return false;`, structure_single_virtual_field_write_methods). -/
+def virtWriteI32 (lo hi k v : Int) : Option Bool :=
+  if v < lo ∨ v > hi then some false else (addI32 v k).map fun _ => true
 
 end Emboss.View
